@@ -166,7 +166,7 @@ class Scenario:
             n = rng.choice([1, 1, 2, 3])
             self.s.cmd("TICK %d" % n); self.events.append(dict(e="Tick", n=n))
         elif a == "poll":
-            v = rng.choice(["ready", "ready", "notready", "hup", "err"])
+            v = rng.choice(["ready", "ready", "notready", "noout", "noout", "hup", "err"])
             self.s.cmd("POLL " + v); self.events.append(dict(e="Poll", v=v))
         elif a == "open":
             v = rng.choice(["ok", "ok", "fail"])
@@ -376,6 +376,18 @@ def known_finding_premature(chk, exe):
         s.close()
 
 
+def liveness(chk, http):
+    """EventuallyReturned under fair scheduling of run and of the clock (MC_AsyncService FairSpec): no accepted request stays in the service for ever"""
+    d = vlib.scratch("c13mc")
+    name = "live_http" if http else "live_tcp"
+    cfg = os.path.join(d, name + ".cfg")
+    tlc_cfg(cfg, "FairSpec", dict(N=1, SndTo=1, RcvTo=1, ConTo=1, MaxReq=1, R=2, Http=http), [], "  MaxClock = 6\n  MaxWire = 1\n  MaxMsgs = 1\nPROPERTY EventuallyReturned\n")
+    r = vlib.run_tlc("MC_AsyncService.tla", cfg, timeout=1200, xmx="16g")
+    if r.violation or "Temporal properties were violated" in r.out or "violated" in r.out:
+        raise vlib.CheckError("AsyncService.tla violates the liveness property EventuallyReturned (%s):\n%s" % (name, r.out[-3000:]))
+    vlib.tlc_must_pass(r, name); chk.tlc(r, name)
+
+
 def strict_http_counterexample(chk):
     """the strict statement CauseOnOwnExchange is violated by the DESIGN: TLC must find the counterexample (else the finding's model side is gone)"""
     d = vlib.scratch("c13mc")
@@ -419,6 +431,7 @@ def run(chk, tier, seed):
     # 1. exhaustive model checking (small caches)
     model_check(chk, "n1r2", dict(N=1, SndTo=1, RcvTo=1, ConTo=1, MaxReq=1, R=2), (2, 2, 2), 900)
     model_check(chk, "http_n1r2", dict(N=1, SndTo=1, RcvTo=1, ConTo=1, MaxReq=1, R=2, Http=True), (2, 2, 2), 900)
+    liveness(chk, False); liveness(chk, True)
     if tier == "thorough":
         model_check(chk, "n2r2", dict(N=2, SndTo=1, RcvTo=1, ConTo=0, MaxReq=2, R=2), (2, 2, 3), 1800)
         model_check(chk, "n2r3", dict(N=2, SndTo=0, RcvTo=1, ConTo=1, MaxReq=1, R=3), (1, 2, 2), 2400)
